@@ -326,17 +326,13 @@ fn cols_of(e: &Expr) -> Vec<usize> {
 
 /// rough tag of the recorded finding classes (the authoritative classification is q_class in
 /// coq/Model/AggClass.v)
-pub fn rough_class(t: &Table, q: &Query) -> u32 {
-    if q.keys.iter().any(|k| !matches!(k, Expr::Col(_))) { return 6; }
-    if q.aggs.iter().any(|(f, e)| *f != AggFn::CountStar && !matches!(e, Expr::Col(_))) { return 5; }
-    if let Some(h) = &q.having { if cols_of(h).iter().any(|i| *i >= q.keys.len() && !q.sel.contains(i)) { return 7; } }
-    let rows = where_rows(t, q).unwrap_or_default();
-    if q.aggs.iter().any(|(f, e)| matches!(f, AggFn::Min | AggFn::Max) && rows.iter().any(|r| matches!(eval(e, r), Some(Val::Text(_)) | Some(Val::Bool(_))))) { return 4; }
-    if q.aggs.iter().any(|(f, e)| *f == AggFn::Count && rows.iter().any(|r| matches!(eval(e, r), Some(Val::Null)))) { return 1; }
-    let groups = ref_groups(q, &rows).unwrap_or_default();
-    if q.aggs.iter().any(|(f, e)| *f == AggFn::Sum && groups.iter().any(|(_, g)| g.iter().all(|r| matches!(eval(e, r), Some(Val::Null))))) { return 2; }
-    let overflow = |e: &Expr, g: &Vec<&Vec<Val>>| { let mut acc: i128 = 0; for r in g { if let Some(Val::Int(i)) = eval(e, r) { acc += i as i128; if !i64_ok(acc) { return true; } } } false };
-    if q.aggs.iter().any(|(f, e)| matches!(f, AggFn::Sum | AggFn::Avg) && groups.iter().any(|(_, g)| overflow(e, g))) { return 3; }
+pub fn rough_class(_t: &Table, q: &Query) -> u32 {
+    let nk = q.keys.len();
+    let hcols: Vec<usize> = q.having.as_ref().map(cols_of).unwrap_or_default();
+    let expr_key = |i: &usize| *i < nk && !matches!(q.keys[*i], Expr::Col(_));
+    if hcols.iter().any(expr_key) { return 6; }
+    let bad = |i: &usize| *i >= nk && matches!(q.aggs.get(*i - nk), Some((f, e)) if *f != AggFn::CountStar && !matches!(e, Expr::Col(_)));
+    if hcols.iter().any(bad) || (q.sel.iter().any(expr_key) && q.sel.iter().any(bad)) { return 5; }
     0
 }
 
